@@ -11,7 +11,7 @@ Classes == {"ok", "empty", "blank", "comment", "prefix", "quote", "multiline", "
 ClassNo(c) == CASE c = "ok" -> 0 [] c = "empty" -> 1 [] c = "blank" -> 2 [] c = "comment" -> 3 [] c = "prefix" -> 4 [] c = "quote" -> 5
                 [] c = "multiline" -> 6 [] c = "inject" -> 7 [] c = "template" -> 8 [] c = "long" -> 9 [] c = "unicode" -> 10
                 [] c = "userfirst" -> 11 [] c = "directive" -> 12 [] c = "noop" -> 13 [] c = "ctl" -> 14 [] c = "dollar" -> 15
-                [] c = "rtdo" -> 16 [] c = "rtexpr" -> 17 [] c = "rtloop" -> 18 [] c = "rthang" -> 19
+                [] c = "rtdo" -> 16 [] c = "rtexpr" -> 17 [] c = "rtloop" -> 18 [] c = "rthang" -> 19 [] c = "inlinetmpl" -> 20 [] c = "botvar" -> 21
 Modes == {"dialog", "single", "general", "multistep", "v2", "v2gen"}
 (* call positions (tasks) of a turn per mode *)
 Tasks(m) == CASE m = "dialog"    -> <<"generate_user_intent", "generate_next_steps", "generate_bot_message">>
@@ -27,8 +27,12 @@ Tasks(m) == CASE m = "dialog"    -> <<"generate_user_intent", "generate_next_ste
 RunClasses == {"rtdo", "rtexpr", "rtloop"}
 GenClasses == IF GenFull THEN {"ok", "empty", "blank", "comment", "quote", "multiline", "inject", "template", "long", "dollar", "directive", "ctl", "rtexpr"}
               ELSE {"ok", "empty", "quote", "multiline", "inject", "template", "long", "dollar", "rtexpr"}
-PosClasses(m, i) == IF m = "multistep" /\ i = 2 THEN Classes \cup RunClasses ELSE IF m = "v2gen" THEN GenClasses ELSE Classes
-TurnVecs(m) == {v \in [1..Len(Tasks(m)) -> Classes \cup RunClasses] : \A i \in 1..Len(Tasks(m)) : v[i] \in PosClasses(m, i)}
+(* "inlinetmpl": a generated flow that carries its message text inline, with template syntax in it; "botvar": a next step
+   `bot $variable ...` followed by template syntax *)
+PosClasses(m, i) == IF m = "multistep" /\ i = 2 THEN Classes \cup RunClasses \cup {"inlinetmpl", "botvar"}
+                    ELSE IF m = "dialog" /\ i = 2 THEN Classes \cup {"botvar"}
+                    ELSE IF m = "v2gen" THEN GenClasses ELSE Classes
+TurnVecs(m) == {v \in [1..Len(Tasks(m)) -> Classes \cup RunClasses \cup {"inlinetmpl", "botvar"}] : \A i \in 1..Len(Tasks(m)) : v[i] \in PosClasses(m, i)}
 HangVec == <<"ok", "rthang", "ok">>
 OkVec == <<"ok", "ok", "ok">>
 \* Scripts (documentation only; too large to construct as a set for two turns)
@@ -59,6 +63,7 @@ Emit == Mode = "emit" => PrintT(ToJson(script))
 
 (* recorded turn: [raised, role, content_is_string, llm_text_delivered, template_sent, template_literal] *)
 Completes(c)  == ~c.raised /\ ((c.role = "assistant" /\ c.content_is_string) \/ c.role = "exception")
-DataOnly(c)   == (c.llm_text_delivered /\ c.template_sent) => c.template_literal
+DataOnly(c)   == /\ (c.llm_text_delivered /\ c.template_sent) => c.template_literal
+                 /\ ~c.evaluated          \* the value of a template expression the LLM wrote ({{ 7*7 }}) never shows up in the reply
 Verdict == Mode = "judge" => PrintT(ToJson([k |-> k, completes |-> Completes(Data[k]), dataonly |-> DataOnly(Data[k])]))
 =============================================================================
